@@ -241,7 +241,7 @@ def main():
     chk.assumptions += [
         "kill = SIGKILL of the process, not loss of power: unwritten page-cache data persist, stdio buffers are lost",
         "temporary names chosen by mktemp are distinct from each other and from every fragment name (scen_ok); the EEXIST retry loop of _GD_MakeTempFile is covered by eexist_retry_transparent and by injecting EEXIST at every exclusive creation",
-        "only one call fails per operation (single-fault schedules); the retry runs with no fault",
+        "single-fault schedules are enumerated exhaustively and compared with the model; double-fault schedules are sampled and judged by the property text (crash_atomic_multi covers one failing call per fragment; failures inside a failure continuation are validated only); the retry runs with no fault",
         "the reader that had the dirfile open before keeps its metadata in memory; it is observed at every call boundary of one scenario",
     ]
     try:
@@ -552,6 +552,65 @@ def main():
                         sc.op, en, k, call.name, first["ret"], mflags, cls_mid, len(tm_mid), mc["err"], mc["mod"], mc["final"], mtm), extra)
                 elif not (leak and is_fdopen) and first["ret"] != 0 and (mc["retry_err"] != 0 or mc["retry_final"] != cls_fin):
                     model_fail(sc, "%s, %s at call %d: retry differs from the model: real %s model %s" % (sc.op, en, k, cls_fin, mc["retry_final"]), extra)
+
+    # ---------------------------------------------------------------- double faults (crash_atomic_multi; outcome judged by the property text)
+    def dfault_job(arg):
+        sc, k1, k2, e1, e2, uniq = arg
+        w = sc.work("d%d_%d" % (k1, uniq))
+        snap = w + ".snap"; logp = w + ".log"
+        rc, out = shimlib.run_shim(shim, w, [exe, "run", w, sc.op, sc.modarg()], log=logp, snap_end=snap,
+                                   fail=[(k1, ERRNO[e1]), (k2, ERRNO[e2])])
+        calls = shimlib.read_log(logp)
+        fin = shimlib.tree(w)
+        mid = shimlib.tree(os.path.join(snap, "end")) if os.path.isdir(os.path.join(snap, "end")) else None
+        shutil.rmtree(w, ignore_errors=True); shutil.rmtree(snap, ignore_errors=True)
+        try:
+            os.unlink(logp)
+        except OSError:
+            pass
+        return sc, k1, k2, e1, e2, rc, parse_harness(out), calls, fin, mid, out
+    djobs = []
+    npairs = 10 if not chk.thorough else 60
+    for sc in good:
+        if sc.n < 4:
+            continue
+        for _ in range(npairs):
+            k1 = rng.randrange(sc.n - 1)
+            k2 = rng.randrange(k1 + 1, sc.n + 3)
+            djobs.append((sc, k1, k2, rng.choice(errnos), rng.choice(errnos), len(djobs)))
+    for sc, k1, k2, e1, e2, rc, h, calls, fin, mid, raw in pool.map(dfault_job, djobs):
+        counts["double_fault_runs"] = counts.get("double_fault_runs", 0) + 1
+        chk.cov["evaluations"] += 1
+        failed = [c for c in calls if c.note == "INJECT"]
+        extra = {"faults": [{"call_index": k1, "errno": e1}, {"call_index": k2, "errno": e2}], "failed_calls": [repr(c) for c in failed], "output": raw[-400:]}
+        key0 = "%s/double-fault" % sc.op.split(":")[0]
+        if rc != 0 or h["first"] is None or mid is None:
+            spec_fail(sc, key0 + "/crash", "%s with two failing calls (%s): the process died rc=%d %s" % (sc.op, [repr(c) for c in failed], rc, raw[-200:]), extra)
+            continue
+        first, retry = h["first"], h["retry"]
+        cls_mid, tm_mid = classify_files(sc, mid, sc.old, sc.new)
+        cls_fin, tm_fin = classify_files(sc, fin, sc.old, sc.new)
+        nontriv.add((sc.sid, "double", tuple(c.name for c in failed), first["ret"] != 0, tuple(cls_mid), bool(tm_mid)))
+        unlink_failed = any(c.name.startswith("unlink") for c in failed)
+        j = cls_mid.count("N")
+        if "?" in cls_mid or "-" in cls_mid or cls_mid != ["N"] * j + ["O"] * (len(cls_mid) - j):
+            spec_fail(sc, key0 + "/mixed-or-truncated-fragment", "%s with failing calls %s: fragment files %s are not old*/new* complete texts" % (sc.op, [repr(c) for c in failed], cls_mid), extra)
+            continue
+        if first["ret"] == 0:
+            if "O" in cls_mid or (tm_mid and not unlink_failed):
+                spec_fail(sc, key0 + "/success-but-not-written", "%s with failing calls %s reported success: files %s temps %s" % (sc.op, [repr(c) for c in failed], cls_mid, sorted(tm_mid)), extra)
+            continue
+        flags = first["flags"] or []
+        for n, i in enumerate(sc.frs):
+            want = (1 if i in sc.mods else 0) if cls_mid[n] == "O" else 0
+            if i < len(flags) and flags[i] != want:
+                spec_fail(sc, key0 + "/flag-mismatch", "%s with failing calls %s: fragment %d file is %s but modified=%s" % (sc.op, [repr(c) for c in failed], i, cls_mid[n], flags[i]), extra)
+        if tm_mid and not unlink_failed:
+            spec_fail(sc, key0 + "/temp-file-left", "%s with failing calls %s: %s left although no unlink failed" % (sc.op, [repr(c) for c in failed], sorted(tm_mid)), extra)
+        if "O" not in cls_mid:
+            spec_fail(sc, key0 + "/failure-but-written", "%s reported failure although every fragment was replaced" % sc.op, extra)
+        if retry is None or retry["ret"] != 0 or cls_fin != ["N"] * len(cls_fin):
+            spec_fail(sc, key0 + "/retry-incomplete", "%s with failing calls %s: retry returned %s, files %s" % (sc.op, [repr(c) for c in failed], retry and retry["ret"], cls_fin), extra)
 
     # ---------------------------------------------------------------- reader that had the dirfile open before
     hold_problem = None
